@@ -503,3 +503,53 @@ Proof.
   - intros sid s Hf Hfg. destruct (F2_find_some _ _ _ _ _ Rst Hf) as (ms & Hfm & HS & _).
     exists ms. split; [exact Hfm|]. destruct HS as (_ & _ & _ & _ & _ & H6 & _). apply H6. exact Hfg.
 Qed.
+
+(* ---- a stream starts with the window in force when it is opened ----
+   However long the request waited for a slot and whatever SETTINGS frames were applied in the
+   meantime: the send window of a new stream is the INITIAL_WINDOW_SIZE the machine holds at the
+   moment of the EOpen step (= addStreamLocked), which by R is the value last acknowledged. *)
+Theorem new_stream_window_current : forall c hlen es c' out,
+  0 <= cc_init_win c <= 2147483647 ->
+  conn_step c (EOpen hlen es) = (c', out) -> out <> [] ->
+  exists s, cc_streams c' = s :: cc_streams c /\ cs_id s = cc_next_id c /\ cs_flow s = cc_init_win c /\
+            cs_in s = mkIn (cc_stream_in c) 0.
+Proof.
+  intros c hlen es c' out Hiw H Hne. cbn [conn_step] in H.
+  destruct (negb (cc_dead c) && (active_count (cc_streams c) <? cc_max_streams c) && (1 <=? hlen)
+            && (cc_prio_len c <? cc_max_frame c) && (cc_next_id c <? 2147483647)); inversion H; subst; [|contradiction].
+  eexists. cbn [cc_streams]. split; [reflexivity|]. cbn [cs_id cs_flow cs_in]. repeat split.
+  rewrite wrap32_id by (unfold in32; lia). rewrite out_add_stream_eq by (unfold in32; lia). cbn [snd].
+  replace (in32b (0 + cc_init_win c)) with true by (symmetry; apply in32b_true; unfold in32; lia). lia.
+Qed.
+
+(* ---- header blocks and concurrent peer frames ----
+   Contiguity is a property of each critical section: whatever event the machine handles - also
+   the ones that answer a peer frame arriving at any moment (SETTINGS ACK, WINDOW_UPDATE for
+   DATA) - the frames written in that step leave no header block open, and a trace composed
+   of such pieces is contiguous. *)
+Lemma hb_run_app : forall a b, hb_run 0 a = Some 0 -> hb_run 0 (a ++ b) = hb_run 0 b.
+Proof.
+  assert (G : forall a o o' b, hb_run o a = Some o' -> hb_run o (a ++ b) = hb_run o' b).
+  { induction a as [|e r IH]; intros o o' b H; simpl in *; [inversion H; reflexivity|].
+    destruct e as [f|f]; [|apply IH; exact H].
+    destruct (negb (o =? 0) && negb (is_continuation_on f o)); [discriminate|].
+    destruct f; try (apply IH; exact H).
+    destruct (o =? 0); [discriminate|apply IH; exact H]. }
+  intros a b H. apply (G a 0 0 b H).
+Qed.
+
+Theorem step_blocks_whole : forall c m e, R c m -> hb_run 0 (snd (conn_step c e)) = Some 0.
+Proof.
+  intros c m e HR. destruct (step_ok_all c m e HR) as (m' & Hs & HR').
+  pose proof (mon_hb _ _ _ Hs) as H. destruct HR as (H0 & _). destruct HR' as (H0' & _).
+  rewrite H0, H0' in H. exact H.
+Qed.
+
+Theorem reachable_step_blocks_whole : forall prio_len prio_last stream_in conn_flow,
+  cfg_ok prio_len prio_last stream_in conn_flow ->
+  forall evs e,
+  hb_run 0 (snd (conn_step (fst (conn_run (conn0 prio_len prio_last stream_in conn_flow) evs)) e)) = Some 0.
+Proof.
+  intros pl pla si cf Hc evs e. destruct (accept_all pl pla si cf Hc evs) as (mf & _ & HR & _).
+  eapply step_blocks_whole. exact HR.
+Qed.
